@@ -703,7 +703,8 @@ impl ConcRunner<'_> {
         // ---- world ----
         let mut world = World::new(n, case.sched_seed);
         let total_ops: usize = case.programs.iter().map(Vec::len).sum();
-        world.step_cap = 4000 + 2500 * total_ops as u64;
+        world.step_cap = 4000 + 1500 * total_ops as u64;
+        world.call_cap = 6 * solo_budget(&cfg);
         if !case.schedule.is_empty() {
             world.strat = Strategy::Replay;
             world.replay = case.schedule.clone();
@@ -749,7 +750,7 @@ impl ConcRunner<'_> {
                 let program = &case.programs[tid];
                 let held = dealt[tid].clone();
                 std::thread::Builder::new()
-                    .stack_size(256 * 1024)
+                    .stack_size(2 * 1024 * 1024)
                     .spawn_scoped(s, move || thread_main(tid, shared, alloc, program, held, judge))
                     .expect("spawn");
             }
@@ -773,7 +774,7 @@ impl ConcRunner<'_> {
         res.hash = h.finish();
         match w.aborted {
             Some(AbortReason::SoloBudget { tid, steps }) => {
-                let call = w.cur_call[tid].and_then(|id| j.history.get(id)).map(|c| format!("{:?}", c.call));
+                let call = j.history.iter().rev().find(|c| c.tid == tid && c.ret.is_none()).map(|c| format!("{:?}", c.call));
                 j.report(Violation::new(
                     "C21",
                     "solo-budget-exceeded",
@@ -790,6 +791,19 @@ impl ConcRunner<'_> {
                     "C21",
                     "step-cap-exceeded",
                     format!("the run did not finish within {} atomic steps", w.step_cap),
+                ));
+                res.stats.aborted += 1;
+            }
+            Some(AbortReason::CallBudget { tid, steps }) => {
+                let call = j.history.iter().rev().find(|c| c.tid == tid && c.ret.is_none()).map(|c| format!("{:?}", c.call));
+                j.report(Violation::new(
+                    "C21",
+                    "call-step-budget-exceeded",
+                    format!(
+                        "thread {tid} call {} took more than {steps} atomic steps of its own (the whole run has {} calls)",
+                        call.unwrap_or_default(),
+                        j.history.len()
+                    ),
                 ));
                 res.stats.aborted += 1;
             }
@@ -1131,6 +1145,69 @@ pub fn gen_case(rng: &mut Rng, kind: &str, o: &GenOpts) -> ConcCase {
                         0 => p.push(SOp::Get { order: *rng.pick(&[0usize, 0, 0, 0, 1, 3, 9]), class, slot, target: None }),
                         1 => p.push(SOp::PutHeld { k: rng.below(4), sub: None, class, slot }),
                         _ => p.push(SOp::Drain),
+                    }
+                }
+            }
+        }
+        // sync race: the slot's reserved tree has (almost) no local frames left, but frames were
+        // freed into its global counter; the owner syncs while others drain / swap / steal the slot
+        "K7" => {
+            cfg = Config {
+                frames: rng.range(1, 2) * TREE_FRAMES - if rng.chance(1, 4) { rng.range(1, HUGE_FRAMES) } else { 0 },
+                alloc_all: true,
+                kind: ck,
+                slots: (0..ck.classes()).map(|_| rng.range(1, 2)).collect(),
+            };
+            let t = rng.below(cfg.trees());
+            let base = t * TREE_FRAMES;
+            let span = cfg.frames.saturating_sub(base).min(TREE_FRAMES);
+            let class = rng.below(cfg.slots.len()) as u8;
+            let slot = rng.below(cfg.slots[class as usize]);
+            // k frames freed without a slot, then allocated again through the slot: the slot now
+            // holds the tree with an (almost) empty local counter
+            let k = rng.range(1, 3);
+            let order = *rng.pick(&[0usize, 0, 0, 1, 3]);
+            let len = 1usize << order;
+            let mut used: Vec<usize> = Vec::new();
+            let mut pick = |rng: &mut Rng, used: &mut Vec<usize>| -> Option<usize> {
+                for _ in 0..32 {
+                    let f = base + rng.below((span / len).max(1)) * len;
+                    if f + len <= cfg.frames && !used.contains(&f) {
+                        used.push(f);
+                        return Some(f);
+                    }
+                }
+                None
+            };
+            for _ in 0..k {
+                if let Some(f) = pick(rng, &mut used) {
+                    setup.push(Call::Put { frame: f, order, class, slot: None });
+                }
+            }
+            let keep = rng.below(2);
+            for _ in 0..k.saturating_sub(keep) {
+                setup.push(Call::Get { target: None, order, class, slot: Some(slot) });
+            }
+            // more frames into the global counter of the now reserved tree
+            for _ in 0..rng.range(1, 2) {
+                if let Some(f) = pick(rng, &mut used) {
+                    setup.push(Call::Put { frame: f, order, class, slot: None });
+                }
+            }
+            for i in 0..rng.below(3) {
+                deals.push(Deal { k: rng.below(6), order: *rng.pick(&[0usize, 0, 3]), parts: vec![(rng.below(512), i % n)] });
+            }
+            for (t, p) in programs.iter_mut().enumerate() {
+                if t == 0 {
+                    p.push(SOp::Get { order, class, slot: Some(slot), target: None });
+                }
+                for _ in 0..rng.range(1, 3) {
+                    let (c2, s2) = gen_class_slot(rng, &cfg, false);
+                    match rng.weighted(&[4, 4, 3, 2]) {
+                        0 => p.push(SOp::Drain),
+                        1 => p.push(SOp::Get { order: *rng.pick(&[0usize, 0, order, 1]), class, slot: Some(slot), target: None }),
+                        2 => p.push(SOp::Get { order: *rng.pick(&[0usize, 0, 3]), class: c2, slot: s2, target: None }),
+                        _ => p.push(SOp::PutHeld { k: rng.below(3), sub: None, class: c2, slot: if rng.chance(1, 2) { Some(slot).filter(|_| c2 == class) } else { None } }),
                     }
                 }
             }
